@@ -99,3 +99,7 @@ func VerifNewStartableWorker(e *storage.Engine, table string, store replicationM
 	f.metrics.replicationLeased = prometheus.NewGaugeVec(prometheus.GaugeOpts{Name: "verif_replication_leased"}, []string{"table"})
 	return &VerifWorker{w: f.create(table)}
 }
+
+// Leased tells whether the worker currently believes it holds the table lease (the flag its
+// replication routine consults before every poll).
+func (v *VerifWorker) Leased() bool { return v.w.leased.Load() }
